@@ -58,9 +58,17 @@ def run_case(c, yaml):
         c.node = None
     c.request = None
     if c.node is None:
-        # empty document (None) or scanner/parser/composer error: outside the model
-        c.empty = (c.real_out[0] != 'yaml')
-        return
+        c.empty = False
+        try:
+            empty = c.real.compose(c.text) is None
+        except Exception:  # noqa
+            empty = False
+        if not empty:
+            return           # scanner/parser/composer error: outside the model
+        # an empty stream: the model starts from the null node the loader substitutes
+        c.empty = True
+        m = yaml.error.Mark('<empty document>', 0, 0, 0, None, 0)
+        c.node = yaml.ScalarNode('tag:yaml.org,2002:null', '', m, m)
     if has_sharing(yaml, c.node):
         c.shared = True
         return
